@@ -116,7 +116,7 @@ MAX_STATES = 4000
 
 
 class Engine:
-    def __init__(self, ctx, rel, fn, param=None, cond=None, call=None, cmp=None, length=None, env=None, follow=True, post=None, lenient=False, exceptions=False):
+    def __init__(self, ctx, rel, fn, param=None, cond=None, call=None, cmp=None, length=None, env=None, follow=True, post=None, lenient=False, exceptions=False, strict_locals=False):
         self.ctx, self.rel, self.fn = ctx, rel, fn
         self.mod = ctx.src.mod(rel)
         self.param = param
@@ -124,6 +124,7 @@ class Engine:
         self.post_hook = post
         self.lenient = lenient
         self.exceptions = exceptions
+        self.strict_locals = strict_locals and fn is not None
         self.env0 = dict(env or {})
         self.follow = follow
         self._modconst = {}
@@ -473,6 +474,36 @@ class Engine:
         except Unsupported as e:
             return Unk(str(e))
 
+    def tracked_locals(self):
+        """locals of the function that are bound only by statements the engine follows (assignments, augmented assignments, for targets):
+        such a name missing from the environment on a path whose tests were all decided has not been assigned on that path"""
+        tl = getattr(self, "_tracked", None)
+        if tl is None:
+            plain, other = set(), set()
+            params = {a.arg for a in ast.walk(self.fn.args) if isinstance(a, ast.arg)}
+            for n in ast.walk(self.fn):
+                if isinstance(n, (ast.Assign, ast.AugAssign, ast.AnnAssign, ast.For)):
+                    tg = n.targets if isinstance(n, ast.Assign) else [n.target]
+                    for t in tg:
+                        for x in ast.walk(t):
+                            if isinstance(x, ast.Name) and isinstance(x.ctx, ast.Store):
+                                plain.add(x.id)
+            for n in ast.walk(self.fn):
+                if isinstance(n, (ast.With, ast.AsyncWith, ast.ListComp, ast.SetComp, ast.DictComp, ast.GeneratorExp, ast.NamedExpr, ast.Import,
+                                  ast.ImportFrom, ast.Global, ast.Nonlocal, ast.Delete, ast.Try, ast.Match if hasattr(ast, "Match") else ast.Try)) \
+                        or (isinstance(n, (ast.FunctionDef, ast.ClassDef, ast.Lambda)) and n is not self.fn):
+                    for x in ast.walk(n):
+                        if isinstance(x, ast.Name) and isinstance(x.ctx, (ast.Store, ast.Del)) and not isinstance(n, ast.Try):
+                            other.add(x.id)
+                        elif isinstance(x, ast.ExceptHandler) and x.name:
+                            other.add(x.name)
+                        elif isinstance(x, ast.alias):
+                            other.add((x.asname or x.name).split(".")[0])
+                        elif isinstance(x, (ast.Global, ast.Nonlocal)):
+                            other.update(x.names)
+            tl = self._tracked = plain - other - params
+        return tl
+
     def known_names(self):
         """every name that is bound somewhere: builtins, module-level bindings (assignments, defs, classes, imports, anywhere at module
         level), and any name stored anywhere in the function (parameters, locals, loop / with / except / comprehension targets)"""
@@ -559,7 +590,9 @@ class Engine:
             if mc is not None:
                 return mc
             if self.fn is not None and node.id not in self.known_names() and "*" not in self.known_names():
-                raise Raised("NameError")            # bound nowhere: not a local, not a module-level name, not a builtin
+                raise Raised("NameError")
+            if self.strict_locals and node.id in self.tracked_locals():
+                raise Raised("UnboundLocalError")    # a plain local read on a decided path before anything was assigned to it            # bound nowhere: not a local, not a module-level name, not a builtin
             return Opaque("name:" + node.id, ())
         if isinstance(node, ast.JoinedStr):
             return self.fstring(node, st)
@@ -988,6 +1021,8 @@ class Engine:
     def b_len(self, a, st):
         if len(a) != 1:
             return NotImplemented
+        if a[0] == Const(None) or is_num(a[0]):
+            raise Raised("TypeError")
         if isinstance(a[0], Lit):
             return Fraction(len(a[0].s))
         if isinstance(a[0], Tup):
